@@ -36,6 +36,10 @@
 (* pinned code, ciphertext Max+Ovh+1 split over two frames),               *)
 (* DevMeshChunkIsMax (meshConn.Write forgets the overhead: the encoder     *)
 (* refuses the frame), DevFileNoSlackNoOverhead (file chunk of Max bytes). *)
+(* DevBalancedLastChunk: meshConn.Write spreads the n bytes evenly over    *)
+(* the minimum number of frames (chunk = n div frames) and lets the last   *)
+(* chunk take the remainder, which exceeds Max-Ovh for particular n only   *)
+(* (n = 3*(Max-Ovh)-1, ...): the encoder refuses that frame.               *)
 (* The stall of a shell session under back pressure is in ShellPipes.tla.  *)
 (***************************************************************************)
 EXTENDS Integers, Sequences, FiniteSets, TLC, Json
@@ -51,7 +55,7 @@ CONSTANTS Max,       \* frame payload limit            (real: 16384, scaled: 8)
           Dev, Emit
 
 PathNames == {"mesh-write", "sock-read", "shell-out", "shell-in", "file-send"}
-DevNames  == {"DevChunkBeforeOverhead", "DevMeshChunkIsMax", "DevFileNoSlackNoOverhead"}
+DevNames  == {"DevChunkBeforeOverhead", "DevMeshChunkIsMax", "DevFileNoSlackNoOverhead", "DevBalancedLastChunk"}
 ASSUME Dev \subseteq DevNames /\ Ovh + MsgHdr < Max /\ Slack + Ovh < Max
 
 Min(a, b) == IF a < b THEN a ELSE b
@@ -71,6 +75,13 @@ Hdr(p) == IF p \in {"shell-out", "shell-in"} THEN MsgHdr ELSE 0
 Generic(p) == p \in {"sock-read", "shell-out", "file-send"}
 \* meshConn.Write takes exactly the next Max-Ovh bytes; a Read returns any non-empty prefix of what is there
 Deterministic(p) == p = "mesh-write"
+\* the piece meshConn.Write takes next, for a write of sz bytes of which `done` are already sent
+MeshChunk(sz, done) ==
+  IF "DevBalancedLastChunk" \in Dev
+    THEN LET frames == CeilDiv(sz, Max - Ovh)            \* minimum number of frames
+             even   == sz \div frames                    \* "balanced" chunk size
+         IN IF done \div even >= frames - 1 THEN sz - done ELSE even     \* the last chunk takes the remainder
+    ELSE Min(ReadLimit("mesh-write"), sz - done)
 
 VARIABLES path, n,   \* the data path and the size of the application write
           sent,      \* bytes the sender has consumed
@@ -97,8 +108,8 @@ FramesOf(p, lo, k) == [i \in 1..Pieces(p, k) |-> [lo |-> lo, hi |-> lo + k - 1, 
 (* one iteration of the sender's loop: take k bytes, seal, hand to the frame writer *)
 Produce(k) ==
   /\ bad = "" /\ sent < n /\ Len(wire) < Window
-  /\ k \in 1..Min(ReadLimit(path), n - sent)
-  /\ Deterministic(path) => k = Min(ReadLimit(path), n - sent)
+  /\ IF Deterministic(path) THEN k = MeshChunk(n, sent)
+                            ELSE k \in 1..Min(ReadLimit(path), n - sent)
   /\ IF ~Generic(path) /\ CtLen(path, k) > Max
        THEN \* Frame.Encode: payload too large -> the write fails, nothing is sent
             /\ bad' = "encode-error"
@@ -121,7 +132,7 @@ Deliver ==
   /\ wire' = Tail(wire)
   /\ UNCHANGED <<path, n, sent>>
 
-Next == (\E k \in 1..Max : Produce(k)) \/ Deliver
+Next == (\E k \in 1..(2 * Max) : Produce(k)) \/ Deliver
 Spec == Init /\ [][Next]_vars
 
 (* ---- C07 ---------------------------------------------------------------------------------------------------*)
@@ -146,7 +157,9 @@ EmitEdge ==
 
 (* ---- vectors for the real constants (evaluated with Max = 16384, Ovh = 28, ...) ---------------------------*)
 P == Max - Ovh                                  \* largest plaintext of one frame
-BoundarySizes == {0, 1, P - 1, P, P + 1, 2 * P - 1, 2 * P, 2 * P + 1} \cup Big
+\* around every multiple of P up to 10 frames: a chunker may break for particular lengths only
+NearMultiples == {m * P + d : m \in 1..10, d \in -4..4}
+BoundarySizes == {0, 1, P - 1, P, P + 1, 2 * P - 1, 2 * P, 2 * P + 1} \cup NearMultiples \cup Big
 \* the exact payload lengths of the data frames of one meshConn.Write(n)
 MeshWriteLens(sz) == [i \in 1..CeilDiv(sz, ReadLimit("mesh-write")) |->
                         Min(ReadLimit("mesh-write"), sz - (i - 1) * ReadLimit("mesh-write")) + Ovh]
